@@ -206,6 +206,12 @@ def run_units(report, units, tier, rng, extra_after=None):
             for fi in fails[:3]:
                 report.violation(u.name, {'unit': u.name, 'reason': 'oracle found a failing input although all obligations check',
                                           'failing_input': fi})
+    # ---- audit: nothing admitted, no axiom declared, no kernel check switched off anywhere in the hand-written development
+    bad = H.audit_sources()
+    report.oblige('development-audit: no Admitted / admit / Axiom / Parameter / Conjecture / open Variable, no disabled kernel check', 'audit', not bad, '; '.join(bad[:5]))
+    if bad:
+        report.violation('audit', {'unit': 'audit', 'broken': [{'kind': 'audit', 'what': 'coq development', 'detail': bad[:20]}],
+                                   'note': 'the development no longer meets the rules of the technique: the theorems cannot be relied on'}, found_input=False)
     if extra_after:
         extra_after(report, ok, bad_files, out)
 
